@@ -214,7 +214,7 @@ func genC16(r *rand.Rand, tier string, st *Stats) []Case {
 		}
 		return out
 	}
-	maxTail := sizes(tier, 2, 3)
+	maxTail := sizes(tier, 2, 4)
 	n := 0
 	for l := 0; l <= maxTail; l++ {
 		for _, t := range tails(l) {
@@ -246,7 +246,7 @@ func genC16(r *rand.Rand, tier string, st *Stats) []Case {
 		}
 	}
 	// 3. random mixed ASCII strings with mixed spellings
-	nr := sizes(tier, 1200, 20000)
+	nr := sizes(tier, 1200, 80000)
 	for i := 0; i < nr; i++ {
 		q := []byte{'\'', '"'}[r.Intn(2)]
 		ln := 1 + r.Intn(6)
@@ -321,7 +321,7 @@ func genLex(r *rand.Rand, tier string, st *Stats) []Case {
 	cases := []Case{}
 	cfg := GenCfg{MaxDepth: 3, Subs: true, Globals: true, Predicates: true, Captures: true, Anchors: true, MultiCmd: true,
 		NamedLoops: true, Replace: true, Transforms: true, Amounts: true, LayoutNoise: true}
-	np := sizes(tier, 120, 1500)
+	np := sizes(tier, 120, 4000)
 	for i := 0; i < np; i++ {
 		p := GenSource(r, cfg)
 		st.addFeatures(p.Features)
@@ -329,14 +329,14 @@ func genLex(r *rand.Rand, tier string, st *Stats) []Case {
 		st.Counts["programs"]++
 		// every prefix (quick: every prefix of the first programs, then a sample)
 		for k := 0; k < len(p.Src); k++ {
-			if i >= sizes(tier, 40, 400) && r.Intn(8) != 0 {
+			if i >= sizes(tier, 40, 1000) && r.Intn(8) != 0 {
 				continue
 			}
 			cases = append(cases, tokCase(fmt.Sprintf("p%d.pre%d", i, k), p.Src[:k], "prefix"))
 			st.Counts["prefixes"]++
 		}
 	}
-	ns := sizes(tier, 3000, 60000)
+	ns := sizes(tier, 3000, 400000)
 	for i := 0; i < ns; i++ {
 		ln := r.Intn(24)
 		b := make([]byte, ln)
@@ -351,7 +351,7 @@ func genLex(r *rand.Rand, tier string, st *Stats) []Case {
 		cases = append(cases, tokCase(fmt.Sprintf("soup%d", i), string(b), "bytesoup"))
 	}
 	st.Counts["bytesoups"] = ns
-	nt := sizes(tier, 3000, 60000)
+	nt := sizes(tier, 3000, 400000)
 	for i := 0; i < nt; i++ {
 		var b strings.Builder
 		k := 1 + r.Intn(8)
@@ -375,7 +375,7 @@ func genLex(r *rand.Rand, tier string, st *Stats) []Case {
 		}
 	}
 	// sources containing NUL bytes (the lexer treats NUL as end of input: quirk, modelled)
-	nn := sizes(tier, 300, 3000)
+	nn := sizes(tier, 300, 30000)
 	for i := 0; i < nn; i++ {
 		ln := 1 + r.Intn(10)
 		b := make([]byte, ln)
